@@ -336,7 +336,8 @@ func algebraScenario(shard, nshards int, full bool) explore.Scenario {
 			}
 			// ID regexps, alone and combined
 			if shard == 0 {
-				for _, re := range []string{"^r00", "5$", "r0[12]", ".*", "^$", "r01|r02"} {
+				// (unanchored pure literals match as substrings: "r01" selects r010..r019, "r050" one id, "0" most, "x" none)
+				for _, re := range []string{"^r00", "5$", "r0[12]", ".*", "^$", "r01|r02", "r01", "r050", "0", "r", "x", "", "(?i)R01", "^r050$", "^r05", `r0\d5`, "r05.", `r\x30`} {
 					n++
 					if msg := s.check(nil, regexp.MustCompile(re), "id~"+re); msg != "" {
 						fail(msg)
